@@ -402,6 +402,13 @@ def run_history(rec, case):
         rec.count('histories_with_odd_handlers')
 
     def V(key, msg):
+        lw = getattr(T.sim, 'lost_wakeup_conns', None)
+        if lw is not None and lw():
+            # known finding K15 (decided on the driver's own state): the
+            # real simple_websocket driver under the threaded server did not
+            # report the end of a connection; the threaded side then learns
+            # of it by its heartbeat, later and with another reason
+            key = 'simple-websocket-lost-wakeup'
         rec.viol(key, msg + ' ; handlers %r%s' % (
             hcfg, ' ; asyncio server behind the %s adapter' % {
                 'H': 'aiohttp', 'N': 'tornado'}[case['aio']]
